@@ -98,8 +98,8 @@ def id_star(graph: NxMixedGraph, event: Event, *, _number_recursions: int = 0) -
     if conflicts:
         raise ConflictUnidentifiable(cf_subgraph, new_event, conflicts)
 
-    # Line 9
-    return id_star_line_9(cf_subgraph)
+    # Line 9: ancestors of the event that are not part of the event itself are marginalized out
+    return Sum.safe(id_star_line_9(cf_subgraph), get_free_variables(cf_subgraph, new_event))
 
 
 class ConflictUnidentifiable(Unidentifiable):
